@@ -38,6 +38,17 @@ def _gen_sweep(rng, depth, names):
     import cirq
 
     r = rng.random()
+    if r > 0.93 and len(names) >= 3:
+        # a list of resolvers over the same keys, each written in its own key order
+        ks = [names.pop() for _ in range(rng.randrange(1, 4))]
+        rows = []
+        ragged = rng.random() < 0.3  # resolvers that do not all assign the same parameters (the wire format must refuse these, not merge them)
+        for _ in range(rng.randrange(1, 4)):
+            order = rng.sample(ks, len(ks))
+            if ragged:
+                order = order[:rng.randrange(0, len(order) + 1)]
+            rows.append({k_: rng.randrange(-4, 5) / 4 for k_ in order})
+        return cirq.ListSweep(rows)
     if depth == 0 or r < 0.35:
         k = names.pop() if names else "z"
         return rng.choice([lambda: cirq.Points(k, [rng.randrange(-3, 4) / 2 for _ in range(rng.randrange(0, 4))]),
@@ -92,6 +103,17 @@ def standin_sweeps(tier, seed):
             g = [asdict(r) for r in s[sl]]
             if not _close(g, want_s[sl]):
                 fails.append(dict(args=dict(ctx, slice=repr(sl)), failed="slice", clause="slicing differs from slicing the list of assignments"))
+        # through the wire formats that carry sweeps: the same assignments come back (or the sweep is refused)
+        try:
+            from cirq_google.api import v2 as _v2
+            back = _v2.sweep_from_proto(_v2.sweep_to_proto(s))
+            gb = [asdict(r) for r in back]
+            if not _close(gb, want_s):
+                fails.append(dict(args=dict(ctx, back=repr(back)[:600]), failed="wire-roundtrip", clause="the sweep read back from the v2 message enumerates different assignments"))
+        except (ImportError, ValueError, TypeError, NotImplementedError):
+            pass
+        except IndexError:
+            pass  # empty Points: recorded under C16 as a known finding of the wire format
         # operators: a + b zips the two sweeps as they are (whatever their own kind), a * b is their product
         try:
             t = _gen_sweep(rng, rng.randrange(0, 3), names)
@@ -114,7 +136,7 @@ def standin_sweeps(tier, seed):
         if len(fails) >= 4:
             break
     return dict(function="cirq-core/cirq/study/sweeps.py[len, iteration, indexing, slicing]", case="sweeps",
-                bound="seeded nested sweeps (depth <= 3, fan-out <= 3) of Points/Linspace/Product/Zip/ZipLongest/Concat; every index in [-n-1, n], 5 slices; a + b and a * b of two such sweeps",
+                bound="seeded nested sweeps (depth <= 3, fan-out <= 3) of Points/Linspace/Product/Zip/ZipLongest/Concat/ListSweep (resolvers with their own key orders), also read back from the v2 wire message; every index in [-n-1, n], 5 slices; a + b and a * b of two such sweeps",
                 cases=cases, distinct=cases, failures=len(fails), exhaustive=False, _fails=fails[:4])
 standin_sweeps.prop = "C10"
 
